@@ -10,7 +10,7 @@ pub(crate) struct DuplicateFunctionId {
     duplicate: LitInt,
     first: Span,
     service_ident: Ident,
-    free_id: u32,
+    free_id: Option<u32>,
 }
 
 impl DuplicateFunctionId {
@@ -20,7 +20,7 @@ impl DuplicateFunctionId {
             _ => None,
         });
 
-        let mut max_id = funcs
+        let mut max_id: u32 = funcs
             .clone()
             .filter_map(|func| func.id().value().parse().ok())
             .max()
@@ -30,8 +30,8 @@ impl DuplicateFunctionId {
             funcs.filter(|func| func.id().value().parse::<u32>().is_ok()),
             |func| func.id().value(),
             |duplicate, first| {
-                max_id += 1;
-                let free_id = max_id;
+                let free_id = max_id.checked_add(1);
+                max_id = free_id.unwrap_or(max_id);
                 validate.add_error(Self {
                     schema_name: validate.schema_name().to_owned(),
                     duplicate: duplicate.id().clone(),
@@ -66,7 +66,10 @@ impl Diagnostic for DuplicateFunctionId {
                 .context(schema, self.first, "first defined here");
         }
 
-        report = report.help(format!("use a free id, e.g. {}", self.free_id));
+        if let Some(free_id) = self.free_id {
+            report = report.help(format!("use a free id, e.g. {free_id}"));
+        }
+
         report.render()
     }
 }
